@@ -93,6 +93,33 @@ MUTATION_DRILLS = [
    "buffer-spec:synth_express",
    "buffer-spec:synth_fluid"
   ]
+ },
+ {
+  "mutation": "(seeded) abc_segmentor stops scanning after kMaxSpellingLength = 128 letters: Escape after > 128 letters drops only the last chunk (caught by the long_histories family: 129..260 letters then Escape/Home+Escape/KP_Left x k+Escape/BackSpace/Delete/End)",
+  "ran": "scratch worktree /var/tmp/wt-eng at /repo HEAD + the change; VERIF_REPO=/var/tmp/wt-eng VERIF_CACHE=/var/tmp/rime-verif-eng bin/check C05 quick",
+  "exit": 1,
+  "printed": "VIOLATION property=C05 replay=replays/C05-quick-0.json",
+  "violation_keys": [
+   "buffer-spec:cangjie5",
+   "buffer-spec:cangjie5_fluid",
+   "buffer-spec:luna_pinyin",
+   "buffer-spec:luna_pinyin_fluid",
+   "buffer-spec:synth_express",
+   "buffer-spec:synth_fluid"
+  ],
+  "first_replay": {
+   "schema": "cangjie5",
+   "history_tail": [
+    "key 105 0",
+    "key 110 0",
+    "key 105 0",
+    "key 110 0",
+    "key 105 0",
+    "key 110 0",
+    "key 105 0",
+    "key 65307 0"
+   ]
+  }
  }
 ]
 
